@@ -5,6 +5,8 @@ import (
 	"math"
 	"math/rand"
 	"sort"
+	"sync"
+	"sync/atomic"
 	"time"
 
 	"github.com/markusressel/fan2go/internal/configuration"
@@ -469,10 +471,69 @@ func c06Pid(ctx *Ctx) {
 	}
 }
 
+// c06Concurrent: several fans sharing one function curve evaluate it from their own goroutines. With constant
+// sensor values every evaluation, by whichever goroutine, must yield the documented aggregate.
+func c06Concurrent(ctx *Ctx) {
+	r := ctx.Rng
+	typ := pick(r, fnTypes...)
+	k := 2 + r.Intn(5)
+	var ids []string
+	var vals []int
+	for i := 0; i < k; i++ {
+		s := newScriptSensor(float64(30000 + r.Intn(50000)))
+		c := mkCurve(configuration.CurveConfig{ID: uniqueId("clin"), Linear: &configuration.LinearCurveConfig{Sensor: s.Id, Min: 30, Max: 80}})
+		v, _ := c.Evaluate()
+		ids = append(ids, c.GetId())
+		vals = append(vals, v)
+	}
+	inner := mkCurve(configuration.CurveConfig{ID: uniqueId("cfn"), Function: &configuration.FunctionCurveConfig{Type: typ, Curves: ids}})
+	top := mkCurve(configuration.CurveConfig{ID: uniqueId("cfn"), Function: &configuration.FunctionCurveConfig{Type: "maximum", Curves: []string{inner.GetId()}}})
+	want := refAgg(typ, vals)
+	var wg sync.WaitGroup
+	var bad int64
+	var firstBad int64 = -1
+	for g := 0; g < 4; g++ {
+		wg.Add(1)
+		go func(g int) {
+			defer wg.Done()
+			defer func() {
+				if p := recover(); p != nil {
+					atomic.AddInt64(&bad, 1)
+					atomic.CompareAndSwapInt64(&firstBad, -1, -999)
+				}
+			}()
+			c := inner
+			if g%2 == 1 {
+				c = top
+			}
+			for i := 0; i < 1500; i++ {
+				v, err := c.Evaluate()
+				if err != nil || v != want {
+					atomic.AddInt64(&bad, 1)
+					atomic.CompareAndSwapInt64(&firstBad, -1, int64(v))
+				}
+			}
+		}(g)
+	}
+	wg.Wait()
+	ctx.Eval(6000)
+	desc := map[string]interface{}{"kind": "concurrent", "type": typ, "member_values": vals, "goroutines": 4}
+	ctx.SampleKind("concurrent", desc)
+	if bad > 0 {
+		ctx.Violation("function:"+typ+":wrong-aggregate-under-concurrent-evaluation", fmt.Sprintf("%v: %d of 6000 evaluations by 4 goroutines differed from %d (first: %d)", desc, bad, want, firstBad), desc)
+		return
+	}
+	ctx.Nontrivial(fmt.Sprintf("concurrent|%s|%v", typ, vals))
+}
+
 func init() {
 	register("C06", func(ctx *Ctx) {
 		n := ctx.N(400000, 4000000)
 		for k := 0; k < n; k++ {
+			if k%400 == 399 {
+				c06Concurrent(ctx)
+				continue
+			}
 			switch k % 3 {
 			case 0:
 				c06Linear(ctx)
